@@ -252,7 +252,7 @@ _add(
          "STDP, MSTDP and MSTDPET. One evaluation = one layer step + trainer call + update judged (parts, net change, "
          "applied change) against sums over recorded spike times; non-trivial when at least one spike pair contributes; "
          "distinct = (trainer, cell type, delay mode, sign mode, trace mode, reduction, batch, reward kind, pairs/no pairs).",
-    required=["trainer_steps_checked", "steps_with_pairs", "exhaustive_histories", "per_cell_override_cases"],
+    required=["trainer_steps_checked", "steps_with_pairs", "exhaustive_histories", "per_cell_override_cases", "multicell_steps_checked"],
     floor={"quick": 60, "thorough": 150},
     exhaustive={"quick": ["all 4^4 joint pre/post histories of one synapse x 4 sign modes x 2 trace modes"],
                 "thorough": ["all 4^5 joint pre/post histories of one synapse x 4 sign modes x 2 trace modes"]},
